@@ -20,3 +20,14 @@ func routeMsg(ru *simnet.RoutingUpdate) []byte {
 	b, _ := json.Marshal(ru)
 	return append([]byte{simnet.MsgRoute}, b...)
 }
+
+// quietNamed is quiet for checks that start the real runner binary: the daemon hands its log level to the runner by
+// name, and "quiet" has no name, so these run at level "error" for the whole process (never toggled: the level is a
+// plain global read by every goroutine of the code under test).
+func quietNamed() {
+	if os.Getenv("VERIF_LOG") != "" {
+		logger.SetGlobalLogLevel(logger.DebugLevel)
+		return
+	}
+	logger.SetGlobalLogLevel(logger.ErrorLevel)
+}
